@@ -267,7 +267,9 @@ func c06yExec(w *c06aWorld, h c06yHist, block bool) (obs map[string]string, tie 
 	}
 	switch h.Recv {
 	case "conn":
-		if !block { // the replay: neither the block nor the pinned connection ever happen
+		// the replay: neither the block nor the pinned connection ever happen (under PrepareStmt the pinned connection
+		// legitimately bypasses the prepared-statement pool — other driver calls — so there the replay keeps Connection)
+		if !block && h.D0 != "prep" {
 			around(build(h0, h.C), false)
 			obs["conn"] = ""
 			break
